@@ -311,6 +311,7 @@ fn run_script(script: &Script, fault: Fault) -> Outcome {
                 3 => first_done.map(|t| t + 10 * MS),
                 5 => first_store_at_prev.map(|t| t + 25 * MS),
                 6 => calls[started - 1].as_ref().and_then(|c| c.task.finished).map(|t| t + 10 * MS),
+                7 => calls[started - 1].as_ref().map(|c| c.task.started + 15 * MS),
                 _ => first_done.map(|t| t + 6 * MIN),
             };
             if started == 0 || due.map(|d| now >= d).unwrap_or(false) {
@@ -358,6 +359,8 @@ fn run_script(script: &Script, fault: Fault) -> Outcome {
                 2 => t_start + 520 * MS,
                 3 => calls[0].as_ref().and_then(|c| c.task.finished).map(|t| t + 10 * MS).unwrap_or(u64::MAX),
                 5 => first_store_at.map(|t| t + 25 * MS).unwrap_or(now + 10 * MS),
+                6 => calls[started - 1].as_ref().and_then(|c| c.task.finished).map(|t| t + 10 * MS).unwrap_or(u64::MAX),
+                7 => calls[started - 1].as_ref().map(|c| c.task.started + 15 * MS).unwrap_or(u64::MAX),
                 _ => calls[0].as_ref().and_then(|c| c.task.finished).map(|t| t + 6 * MIN).unwrap_or(u64::MAX),
             }
         } else {
@@ -515,6 +518,21 @@ pub fn run(a: &Args) -> Report {
                 for f in [Fault::HoldStoreAcks, Fault::DropStoreAcks] {
                     store_phase.push((Script { seed: mix(a.seed, 0x7219e + store_phase.len() as u64), servers: 4, x_server: false, calls: vec![(c1, false, 0), (c2, false, 5), (c3, false, 6)] }, f));
                 }
+            }
+        }
+    }
+    // cold-cache triples: a put stores the datum, six minutes later (its lookup cache has expired) a lookup of
+    // the same target starts and 15 ms after it the same put again, which joins that lookup; callers such as
+    // get_immutable drop their receiver after the first value while the lookup is still running
+    for (c1, gets) in [
+        (Call::PutImmutable, [Call::GetImmutable, Call::GetClosest, Call::FindNode]),
+        (Call::PutMutable, [Call::GetMutable, Call::GetClosest, Call::FindNode]),
+        (Call::AnnouncePeer, [Call::GetPeers, Call::GetClosest, Call::FindNode]),
+        (Call::AnnounceSigned, [Call::GetSignedPeers, Call::GetClosest, Call::FindNode]),
+    ] {
+        for c2 in gets {
+            for servers in [3usize, 6] {
+                store_phase.push((Script { seed: mix(a.seed, 0xc01d + store_phase.len() as u64), servers, x_server: false, calls: vec![(c1, false, 0), (c2, false, 4), (c1, false, 7)] }, Fault::None));
             }
         }
     }
